@@ -119,3 +119,189 @@ fn list(es: &Value) -> String {
         .map(|a| a.iter().map(expr).collect::<Vec<_>>().join(","))
         .unwrap_or_default()
 }
+
+fn stmts(ss: &Value) -> String {
+    ss.as_array()
+        .map(|a| a.iter().map(stmt).collect::<Vec<_>>().join(":"))
+        .unwrap_or_default()
+}
+
+fn num_list(ns: &Value) -> String {
+    ns.as_array()
+        .map(|a| a.iter().map(|n| n.as_i64().unwrap_or(0).to_string()).collect::<Vec<_>>().join(","))
+        .unwrap_or_default()
+}
+
+fn range_text(s: &Value) -> String {
+    // form: "all" | "one" | "from" | "to" | "range"
+    let a = s["a"].as_i64().unwrap_or(0);
+    let b = s["b"].as_i64().unwrap_or(65529);
+    match s["form"].as_str().unwrap_or("range") {
+        "all" => String::new(),
+        "one" => format!(" {}", a),
+        "from" => format!(" {}-", a),
+        "to" => format!(" -{}", b),
+        _ => format!(" {}-{}", a, b),
+    }
+}
+
+fn is_single_goto(ss: &Value) -> Option<i64> {
+    let a = ss.as_array()?;
+    if a.len() == 1 && a[0]["k"] == "goto" {
+        a[0]["n"].as_i64()
+    } else {
+        None
+    }
+}
+
+pub fn stmt(s: &Value) -> String {
+    let k = s["k"].as_str().unwrap_or("");
+    match k {
+        "let" => {
+            let kw = if s["kw"].as_bool().unwrap_or(false) { "LET " } else { "" };
+            format!("{}{}={}", kw, expr(&s["v"]), expr(&s["e"]))
+        }
+        "print" => {
+            let kw = if s["q"].as_bool().unwrap_or(false) { "?" } else { "PRINT" };
+            let mut out = String::from(kw);
+            let mut prev_expr = false;
+            let mut first = true;
+            for it in s["items"].as_array().unwrap_or(&vec![]) {
+                if let Some(sep) = it.get("sep").and_then(|x| x.as_str()) {
+                    out.push_str(sep);
+                    prev_expr = false;
+                } else {
+                    if first && kw == "PRINT" || prev_expr {
+                        out.push(' ');
+                    }
+                    out.push_str(&expr(&it["e"]));
+                    prev_expr = true;
+                }
+                first = false;
+            }
+            out
+        }
+        "goto" => format!("GOTO {}", s["n"]),
+        "gosub" => format!("GOSUB {}", s["n"]),
+        "return" => "RETURN".into(),
+        "ongoto" => format!("ON {} GOTO {}", expr(&s["e"]), num_list(&s["ns"])),
+        "ongosub" => format!("ON {} GOSUB {}", expr(&s["e"]), num_list(&s["ns"])),
+        "if" => {
+            let mut out = format!("IF {} ", expr(&s["c"]));
+            let short = s["short"].as_bool().unwrap_or(false);
+            match (short, is_single_goto(&s["th"])) {
+                (true, Some(n)) => out.push_str(&format!("THEN {}", n)),
+                _ => out.push_str(&format!("THEN {}", stmts(&s["th"]))),
+            }
+            if s["el"].as_array().map_or(false, |a| !a.is_empty()) {
+                match (short, is_single_goto(&s["el"])) {
+                    (true, Some(n)) => out.push_str(&format!(" ELSE {}", n)),
+                    _ => out.push_str(&format!(" ELSE {}", stmts(&s["el"]))),
+                }
+            }
+            out
+        }
+        "for" => {
+            let mut out = format!("FOR {}={} TO {}", expr(&s["v"]), expr(&s["a"]), expr(&s["b"]));
+            if !s["nostep"].as_bool().unwrap_or(false) {
+                out.push_str(&format!(" STEP {}", expr(&s["c"])));
+            }
+            out
+        }
+        "next" => {
+            let vs = s["vs"].as_array().cloned().unwrap_or_default();
+            if vs.is_empty() {
+                "NEXT".into()
+            } else {
+                format!("NEXT {}", vs.iter().map(expr).collect::<Vec<_>>().join(","))
+            }
+        }
+        "while" => format!("WHILE {}", expr(&s["c"])),
+        "wend" => "WEND".into(),
+        "end" => "END".into(),
+        "stop" => "STOP".into(),
+        "rem" => format!("REM{}", s["txt"].as_str().map(|t| format!(" {}", t)).unwrap_or_default()),
+        "data" => format!(
+            "DATA {}",
+            s["vals"].as_array().map(|a| a.iter().map(literal).collect::<Vec<_>>().join(",")).unwrap_or_default()
+        ),
+        "read" => format!("READ {}", list(&s["vs"])),
+        "restore" => {
+            let n = s["n"].as_i64().unwrap_or(-1);
+            if n < 0 { "RESTORE".into() } else { format!("RESTORE {}", n) }
+        }
+        "dim" => format!("DIM {}", list(&s["vs"])),
+        "erase" => format!("ERASE {}", s["vs"].as_array().map(|a| a.iter().map(var_name).collect::<Vec<_>>().join(",")).unwrap_or_default()),
+        "def" => format!(
+            "DEF {}({})={}",
+            s["id"].as_str().unwrap_or("FNX"),
+            s["ps"].as_array().map(|a| a.iter().map(var_name).collect::<Vec<_>>().join(",")).unwrap_or_default(),
+            expr(&s["e"])
+        ),
+        "deftype" => {
+            let w = match s["t"].as_str().unwrap_or("S") {
+                "I" => "DEFINT",
+                "S" => "DEFSNG",
+                "D" => "DEFDBL",
+                _ => "DEFSTR",
+            };
+            let a = s["a"].as_str().unwrap_or("A");
+            let b = s["b"].as_str().unwrap_or("A");
+            if a == b { format!("{} {}", w, a) } else { format!("{} {}-{}", w, a, b) }
+        }
+        "swap" => format!("SWAP {},{}", expr(&s["v1"]), expr(&s["v2"])),
+        "mid" => {
+            if s["non"].as_bool().unwrap_or(false) {
+                format!("MID$({},{})={}", expr(&s["v"]), expr(&s["p"]), expr(&s["e"]))
+            } else {
+                format!("MID$({},{},{})={}", expr(&s["v"]), expr(&s["p"]), expr(&s["n"]), expr(&s["e"]))
+            }
+        }
+        "input" => {
+            let mut out = String::from("INPUT");
+            if !s["caps"].as_bool().unwrap_or(true) {
+                out.push(',');
+            } else {
+                out.push(' ');
+            }
+            let prompt = cps_to_string(&s["prompt"]);
+            if s["hasp"].as_bool().unwrap_or(false) {
+                out.push_str(&format!("\"{}\";", prompt));
+            }
+            out.push_str(&list(&s["vs"]));
+            out
+        }
+        "clear" => "CLEAR".into(),
+        "run" => {
+            let n = s["n"].as_i64().unwrap_or(-1);
+            if n < 0 { "RUN".into() } else { format!("RUN {}", n) }
+        }
+        "cont" => "CONT".into(),
+        "tron" => "TRON".into(),
+        "troff" => "TROFF".into(),
+        "new" => "NEW".into(),
+        "cls" => "CLS".into(),
+        "delete" => format!("DELETE{}", range_text(s)),
+        "list" => format!("LIST{}", range_text(s)),
+        "renum" => format!("RENUM{}", s["args"].as_str().map(|a| format!(" {}", a)).unwrap_or_default()),
+        "bad" | "raw" => s["txt"].as_str().unwrap_or("?").to_string(),
+        _ => format!("REM unknown {}", k),
+    }
+}
+
+/// the text of a command: a numbered line, or a direct line
+pub fn command_text(c: &Value) -> String {
+    match c["k"].as_str().unwrap_or("") {
+        "line" => {
+            let body = stmts(&c["stmts"]);
+            if body.is_empty() {
+                format!("{}", c["n"])
+            } else {
+                format!("{} {}", c["n"], body)
+            }
+        }
+        "direct" => stmts(&c["stmts"]),
+        "reply" => cps_to_string(&c["s"]),
+        _ => String::new(),
+    }
+}
